@@ -318,12 +318,13 @@ CHECKS["C09"] = dict(
     explanation="posix versioning code (PutObject, CompleteMultipartUpload, DeleteObject with and without id, createObjVersion, GetObject by id, "
                 "ListObjectVersions/WalkVersions) on the file-system model: programs of put / multipart-put / delete-marker / delete-by-id on one key of a "
                 "versioning-enabled bucket, from an absent key or an object that predates versioning (null version), with symbolic bodies, against a "
-                "reference history: distinct new ids, every version byte-exact by id, newest version (or missing) by key, listing = history, newest first, one latest.",
+                "reference history: distinct new ids, every version byte-exact by id, newest version (or missing) by key, listing = history, newest first, one latest; "
+                "following the version listing's markers page by page (page size 1 or 2) terminates and reports every entry exactly once.",
     harnesses=[
-        dict(name="H09-program", entry="backend/posix.VfVersions", reach=["program-done"], **_FS),
+        dict(name="H09-program", entry="backend/posix.VfVersions", reach=["program-done", "paged"], **_FS),
     ],
     assumptions=["file-system model; ULIDs are fresh increasing ids"],
-    outside=["programs longer than 2 (quick) / 3 (thorough) operations", "suspend/enable alternation", "paging of version listings", "copy onto a versioned key"],
+    outside=["programs longer than 2 (quick) / 3 (thorough) operations", "suspend/enable alternation", "version listings over several keys, with delimiter or prefix, page sizes above 2", "delete of a non-newest version by id"],
 )
 
 CHECKS["C11"] = dict(
